@@ -80,7 +80,7 @@ def run(chk):
         try:
             res = flavors.project([blk], reprs)
         except Exception as e:
-            chk.fail(f"{tag}.no_exception", f"{type(e).__name__}: {e}", fn=fn, replay=rp)
+            chk.raised(f"{tag}.no_exception", e, fn=fn, replay=rp)
             return
         new = res[0]["data"].T
         full = full_of(present, before)
@@ -124,7 +124,7 @@ def run(chk):
         try:
             res = flavors.project(blks, reprs_m)
         except Exception as e:
-            chk.fail(f"{tagm}.no_exception", f"{type(e).__name__}: {e}", fn=fn, replay=rp)
+            chk.raised(f"{tagm}.no_exception", e, fn=fn, replay=rp)
             continue
         outs = [r for i, r in enumerate(res) if i != 2]
         for k, (present, before, out) in enumerate(zip(presents, datas, outs)):
